@@ -263,6 +263,13 @@ func (c13) server(sc core.Scenario, r *core.R) {
 			if sc.I("copt") == 2 {
 				return main.BoomR(bg, pt, pk) // the same method through a retry-tagged proxy field
 			}
+			if sc.I("mix")%2 == 1 && pk != 6 {
+				// handler methods without an error result (value only / nothing): a panic is still an error
+				if pk%2 == 0 {
+					return main.BoomV(bg, pt, pk)
+				}
+				return "", main.BoomVoid(bg, pt, pk)
+			}
 			return main.Boom(bg, pt, pk)
 		})
 		if !o.Wait(core.Grace) {
